@@ -193,7 +193,7 @@ def build(case):
             sc, so = inp["src"]
             chain = [mk_adapter(a) for a in inp["chain"]]
             node = comps[sc].outputs[f"o{so}"]
-            if so in comps_spec[sc].get("shared_out", []):
+            if so in comps_spec[sc].get("shared_out", []) and not inp.get("own"):
                 # all links of this output branch behind ONE shared pass-through adapter at the output
                 key = (sc, so)
                 if key not in shared:
